@@ -253,4 +253,27 @@ CHECKS = {
                 "envelope stated in the module. Three recorded known "
                 "findings (three distinct delays; target <= 4).",
     },
+    "C16": {
+        "engine": "E-INPUT", "level": "exploration",
+        "technique": "bounded exhaustive lattice of affines (all 48 signed "
+                     "permutations + rotations/shears) x voxel sizes x "
+                     "translations x layouts x dtypes x scalings vs the "
+                     "centre/corner identity",
+        "text": "Real NIfTI files are written for every combination of 53 "
+                "direction matrices (all signed axis permutations, "
+                "rotations, shears, cyclic rotation) x voxel sizes x "
+                "translations x shapes, and for the layout product (3-D, "
+                "4-D x2/x3, RGB x 9 stored dtypes x 6 header scalings x "
+                "ignore-scaling x input-max) and sharding option strings "
+                "(valid and malformed); volume_file_to_info is run and "
+                "info_fullres.json / transform.json are checked: size, "
+                "channels, resolution = voxel size in nm, data type and "
+                "imperfect-type status, sharding block, and for the 27 "
+                "voxels {0,1,n-1}^3 that T((i+1/2)*res) equals 1e6*A*i "
+                "(1e-9 relative); the compact URL form must parse back to "
+                "the identical matrix.",
+        "note": "Lattice of affines, not all invertible matrices; the "
+                "reference affine is the one the file states (float32 in "
+                "NIfTI).",
+    },
 }
